@@ -24,4 +24,5 @@ props! {
     "c13" c13,
     "c16" c16,
     "c17" c17,
+    "c20" c20,
 }
